@@ -130,6 +130,24 @@ def run(ctx):
                 observe("tms", lambda: T.TextMessagingService(first_header=T.FirstHeader(has_more_headers=bool(rng.getrandbits(1)), is_acknowledged=ack, pdu_type=T.TMSPDUType.SERVICE_AVAILABILITY),
                                                               address=a, availability_header=T.AvailabilitySecondHeader(cap) if cap else None))
         observe("tms", lambda: T.TextMessagingService(first_header=T.FirstHeader(has_more_headers=bool(rng.getrandbits(1)), pdu_type=T.TMSPDUType.TMS_ACKNOWLEDGEMENT), address=a))
+    # ---- one header object, two messages (a caller keeps a FirstHeader per PDU type and hands it to every message of that type):
+    # both messages are built before either is serialised, one has an optional header, the other has none, in both orders
+    for rep in range(12):
+        a = rng.choice(addrs)
+        for order in (0, 1):
+            h = T.FirstHeader(pdu_type=T.TMSPDUType.TMS_ACKNOWLEDGEMENT)
+            mk = [lambda: T.TextMessagingService(first_header=h, address=a, sequence_number=(rep * 11) % 128),
+                  lambda: T.TextMessagingService(first_header=h, address=a)]
+            h2 = T.FirstHeader(pdu_type=T.TMSPDUType.SERVICE_AVAILABILITY, is_acknowledged=bool(rep % 2))
+            mk2 = [lambda: T.TextMessagingService(first_header=h2, address=a, availability_header=T.AvailabilitySecondHeader(list(T.TMSDeviceCapability)[rep % len(T.TMSDeviceCapability)])),
+                   lambda: T.TextMessagingService(first_header=h2, address=a)]
+            for makers in (mk, mk2):
+                try:
+                    msgs = [f() for f in (makers if order == 0 else makers[::-1])]
+                except Exception:  # noqa: a refused constructor is reported by the per-message cases above
+                    continue
+                for m_ in msgs:
+                    observe("tms", lambda: m_)
     # ---- ARS
     strs = ["", "a", "1234567", "uživatel-中文-x", "p" * 255, "é" * 127] + EDGED
     P = A.ARSPDUType
